@@ -229,4 +229,83 @@ def diverging_exits(body, fb, names=("std::process::exit",)):
 
 def language(body, fb, cfg, entry, exits, events, stop_at_exit=True):
     nfa = region_nfa(body, cfg, entry, exits, events.stmt, events.term, events.edge, stop_at_exit)
-    return DFA(nfa)
+    d = DFA(nfa)
+    d.path_lang = None
+    # acyclic regions: also the path-precise language (values that depend on the path taken, such as a
+    # boolean computed by `a || b` and tested later, are resolved along each path; infeasible paths vanish)
+    if events.stmt_events is None and events.branch_labels is None and not stop_at_exit:
+        try:
+            d.path_lang = path_language(body, fb, cfg, entry, exits, events)
+        except Exception:
+            d.path_lang = None
+    return d
+
+
+def path_language(body, fb, cfg, entry, exits, events, limit=4000):
+    from .paths import acyclic_paths, PathOriginsOv, simplify
+    from .gea import is_guard, normalise_guards
+    reach = cfg.reachable_from(entry) & cfg.can_reach(exits)
+    # acyclic?
+    for (a, b_) in cfg.back_edges(entry):
+        if a in reach and b_ in reach:
+            return None
+    paths = acyclic_paths(cfg, entry, exits, limit)
+    out = set()
+    base_roles = events.roles
+    for p in paths:
+        org = PathOriginsOv(body, fb, p, overrides=dict(base_roles.org.overrides))
+        roles = Roles(body, fb, param_roles=base_roles.param_roles, upvar_roles=base_roles.upvar_roles, local_roles=base_roles.local_roles, org=org)
+        ev = Events(body, fb, roles=roles, epsilon=events.epsilon)
+        ev.ret_events = events.ret_events
+        ev.set_events = events.set_events
+        ev.interesting = events.interesting
+        seq = []
+        feasible = True
+        for i, bi in enumerate(p):
+            blk = body.blocks[bi]
+            for si, s in enumerate(blk["stmts"]):
+                l = ev.stmt(bi, si, s)
+                if l:
+                    seq += [l] if isinstance(l, str) else l
+            t = blk["term"]
+            l = ev.term(bi, t)
+            if l:
+                seq += [l] if isinstance(l, str) else l
+            if i + 1 < len(p):
+                nxt = p[i + 1]
+                if t["k"] == "switch":
+                    c = simplify(org.of_operand(t["x"], bi, "t"))
+                    if c[0] == "const" and isinstance(c[2], int):
+                        taken = None
+                        for v, bb in t["arms"]:
+                            if int(v) == c[2]:
+                                taken = bb
+                        if taken is None:
+                            taken = t["otherwise"]
+                        if taken != nxt:
+                            feasible = False
+                            break
+                        continue
+                l = ev.edge(bi, t, nxt)
+                if l and l != "<cut>":
+                    seq += [l] if isinstance(l, str) else l
+        if not feasible:
+            continue
+        # condense: guards between events become a normalised conjunction
+        res = []
+        g = []
+        ok = True
+        for l in seq + ["$"]:
+            if l != "$" and is_guard(l):
+                g.append(l)
+                continue
+            ng = normalise_guards(g)
+            if ng is None:
+                ok = False
+                break
+            gl = "&".join("%s%s(%s%s)" % ("" if t else "!", k, a, ("," + b_) if b_ else "") for k, a, b_, t in ng)
+            res.append("<%s> %s" % (gl, l))
+            g = []
+        if ok:
+            out.add(tuple(res))
+    return out
